@@ -37,6 +37,7 @@ MAP = [
  ("negative constant base of a power", ["C01"]),
  ("isnan built-in returns an array", ["C09", "C01"]),
  ("power whose base is a power", ["C01", "C03"]),
+ ("splits a quoted string", ["C20", "C01"]),
 ]
 log = subprocess.run(["git", "-C", "/repo", "log", "--reverse", "--format=%h %s"],
                      capture_output=True, text=True).stdout.splitlines()
